@@ -124,7 +124,7 @@ def strat_routes(tier):
         'Q': _Q(),
         'shift': st.one_of(st.just([0, 0]), st.tuples(_shift_axis(), _shift_axis()).map(list)),
         'kind': U.field_kinds,
-        'dtype': st.sampled_from(['complex128', 'complex128', 'float64', 'complex64', 'float32']),
+        'dtype': st.sampled_from(['complex128', 'complex128', 'float64', 'complex64', 'float32', 'int64', 'uint8', 'bool']),
         'prec': st.sampled_from([64, 64, 64, 32]),
         'fwd': st.booleans(),
         'via': st.sampled_from(['executor', 'executor', 'function', 'wavefront']), 'layout': U.layouts,
@@ -137,6 +137,14 @@ def strat_routes(tier):
 def _cast(f, dtype):
     if dtype in ('float64', 'float32'):
         return np.ascontiguousarray(f.real).astype(dtype)
+    if dtype in ('int64', 'uint8'):
+        # integer-typed pupils (counts, 0..255 transmission maps)
+        return np.round(np.abs(f.real) * 100).astype(dtype)
+    if dtype == 'bool':
+        # a binary aperture mask, e.g. what prysm.geometry.circle returns
+        m = np.abs(f.real) > 0.35
+        m.flat[0] = True
+        return m
     return f.astype(dtype)
 
 
@@ -157,6 +165,7 @@ def check_routes(case, ctx):
         out_arg = U.tup(out)
     f = U.relayout(_cast(U.field(case['seed'], shape, case['kind']), dtype), case.get('layout', 'C'))   # same values, any memory layout
     f_before = f.copy()
+    fnum = f.astype(np.float64) if f.dtype.kind in 'bui' else f          # the oracle side works on the numeric values
     shifted = any(s != 0 for s in shift)
     square = shape[0] == shape[1]
     ctx.nt(not (square and tuple(shape) == outp and Q == 1 and not shifted and dtype.startswith('float')))
@@ -166,8 +175,8 @@ def check_routes(case, ctx):
     with U.precision(prec):
         if via == 'executor':
             Qpair = U.as_pair(Q)
-            ref_p = U.ref_dft(f, Qpair, outp, shift, fwd)
-            ref_m = U.ref_dft(f, Qpair, outp, (-shift[0], -shift[1]), fwd) if shifted else ref_p
+            ref_p = U.ref_dft(fnum, Qpair, outp, shift, fwd)
+            ref_m = U.ref_dft(fnum, Qpair, outp, (-shift[0], -shift[1]), fwd) if shifted else ref_p
             outs = {}
             for method, ex in (('mdft', mdft), ('czt', czt)):
                 fn = getattr(ex, {('mdft', True): 'dft2', ('mdft', False): 'idft2', ('czt', True): 'czt2', ('czt', False): 'iczt2'}[(method, fwd)])
@@ -178,9 +187,9 @@ def check_routes(case, ctx):
                 outs[method + '_sign'] = sign
             if shifted:
                 ctx.require(outs['mdft_sign'] == outs['czt_sign'] or
-                            float(np.abs(np.abs(ref_p) - np.abs(ref_m)).max()) <= 10 * tol * _scale(f, Q),
+                            float(np.abs(np.abs(ref_p) - np.abs(ref_m)).max()) <= 10 * tol * _scale(fnum, Q),
                             'shift-sign:mdft-vs-czt', 'mdft and czt translate in opposite directions for shift=%r' % (shift,))
-                e = float(np.abs(np.abs(outs['mdft']) - np.abs(outs['czt'])).max()) / _scale(f, Q)
+                e = float(np.abs(np.abs(outs['mdft']) - np.abs(outs['czt'])).max()) / _scale(fnum, Q)
                 ctx.require(e <= 2 * tol, 'routes-differ-in-modulus', 'mdft vs czt modulus differs by %.3g for shift=%r' % (e, shift))
             U.check_equal(f, f_before, 'input-modified', 'the transform modified its input array')
             return
@@ -200,8 +209,8 @@ def check_routes(case, ctx):
             dx_in = wvl * efl / (shape[1] * dxo * Qx)
             Qtrue = (wvl * efl / (shape[0] * dxo * dx_in), wvl * efl / (shape[1] * dxo * dx_in))
             sh_units = (shift[0] * dxo, shift[1] * dxo)
-        ref_p = U.ref_dft(f, Qtrue, outp, shift, fwd)
-        ref_m = U.ref_dft(f, Qtrue, outp, (-shift[0], -shift[1]), fwd) if shifted else ref_p
+        ref_p = U.ref_dft(fnum, Qtrue, outp, shift, fwd)
+        ref_m = U.ref_dft(fnum, Qtrue, outp, (-shift[0], -shift[1]), fwd) if shifted else ref_p
         res = {}
         for method in ('mdft', 'czt'):
             if via == 'function':
@@ -219,7 +228,7 @@ def check_routes(case, ctx):
                 b += ':nonsquare-input'
             res[method] = _cmp(ctx, o, ref_p, ref_m, shifted, 10 * tol, b,
                                '%s via %s %s %s->%s dx_in=%g dx_out=%g shift=%r' % (method, via, 'focus' if fwd else 'unfocus', shape, outp, dx_in, dxo, sh_units),
-                               _scale(f, Qtrue))
+                               _scale(fnum, Qtrue))
         U.check_equal(f, f_before, 'input-modified', 'the propagation modified its input array')
 
 
